@@ -308,7 +308,7 @@ static void gen_program(uint64_t rseed, uint64_t idx, const char *tier, sbuf_t *
   const char *op = gen_all_ops[idx % (uint64_t)nops];
   const lib_t *L = m4sim_libs[(idx / (uint64_t)nops) % (uint64_t)m4sim_nlibs];
   sb_printf(o, "# m4sim engine=hist scenario=%s lib=%s\nlib %s\n", op, L->name, L->name);
-  if ((idx / (uint64_t)nops) % 4 == 3) sb_printf(o, "knobs 4096 32768 65536\n"); /* deep cases: smallest admissible caches */
+  if ((idx / (uint64_t)nops) % 4 == 3 || (idx / (uint64_t)nops) % 16 == 14) sb_printf(o, "knobs 4096 32768 65536\n"); /* deep (and half of the flat) cases: smallest admissible caches */
   else if (rng_chance(&rk, 1, 2)) {
     long l1s[] = { 4096, 8192, 16384, 32768 }, l2s[] = { 32768, 65536, 262144, 1310720 }, l3s[] = { 65536, 262144, 1048576, 4194304 };
     long a = l1s[rng_below(&rk, 4)], b = l2s[rng_below(&rk, 4)], c = l3s[rng_below(&rk, 4)];
@@ -341,6 +341,7 @@ static void gen_program(uint64_t rseed, uint64_t idx, const char *tier, sbuf_t *
   if (st % 3 == 2 && st % 4 != 3) g.maxdim = 96;
   if (st % 4 == 1) g.winprob = 12; /* operands (and supplied destinations) that are views into larger matrices, at odd and even word offsets */
   if (st % 4 == 3) g.deep = 1;
+  if (st % 16 == 6 || st % 16 == 14) { g.sliver = st % 16 == 6 ? 1 : 2; g.deep = 0; g.maxdim = thorough ? 1200 : 400; } /* extremely flat operands, with the smallest caches (knobs line above) in the second class */
   sbuf_t t = { 0 };
   gen_case(&rg, op, &g, &t, 0, 0);
   for (char *q = strtok(t.s, "\n"); q; q = strtok(NULL, "\n")) sb_printf(o, "probe %s\n", q);
